@@ -384,6 +384,7 @@ Feeds(e) ==
                 \* C09: backfill + live deliver the final version of every key (running feed with backfill);
                 \* a dump delivers the snapshot as of its backfill
                 fFinal == IF f.backfill # "zero" THEN 0
+                          ELSE IF f.dump /\ f.stopped THEN 0
                           ELSE IF f.dump
                           THEN Cardinality({k \in Keys : HasVersionAt(c, k, f.bfline)
                                   /\ VersionAt(c, k, f.bfline).cas >= start[c]
@@ -397,7 +398,11 @@ Feeds(e) ==
                 \* C16: nothing is delivered after the done channel closed
                 fAfter == IF f.afterend = 0 THEN 0
                           ELSE IF FeedFail({"C16"}, e, f, "callback-after-end", 0, f.afterend) THEN 1 ELSE 1
-            IN fOrder + fSpur + fOnce + fFinal + fAfter
+                \* C16: once the terminator is closed the callback is not invoked again (at most the delivery already in flight)
+                fStop == IF ~f.stopped THEN 0
+                         ELSE IF f.total - f.stopat <= 1 THEN 0
+                         ELSE IF FeedFail({"C16"}, e, f, "callback-after-terminator-closed", f.stopat + 1, f.total) THEN 1 ELSE 1
+            IN fOrder + fSpur + fOnce + fFinal + fAfter + fStop
         \* C15: the runs of one checkpointed feed, taken together
         runsOf(id) == {i \in 1..Len(fs) : fs[i].id = id}
         chk15(id) ==
